@@ -1788,6 +1788,38 @@ def m_into_variant(it, ctx, a, m, f):
     raise Unsupported('by-value accessor ' + f)
 
 
+def _id_char(ctx, c, start):
+    """swc's Ident::is_valid_start / is_valid_continue; non-ASCII: Unicode ID_Start / ID_Continue as an opaque predicate"""
+    ascii_ok = b_or(in_range(c, 65, 90), in_range(c, 97, 122), v_eq(c, 95), v_eq(c, 36))
+    if not start:
+        ascii_ok = b_or(ascii_ok, in_range(c, 48, 57))
+    if isinstance(c, int):
+        if c < 128:
+            return ascii_ok
+        ch = chr(c)
+        return (ch.isidentifier() if start else ('a' + ch).isidentifier())
+    # non-ASCII: exact on a set of representatives of the three Unicode classes (harnesses that reach this function
+    # constrain their symbolic non-ASCII characters to these representatives; see ID_REPS)
+    reps = ID_REPS['start'] + ([] if start else ID_REPS['continue'])
+    return z3.If(z3.ULT(c, 128), ascii_ok if not isinstance(ascii_ok, bool) else z3.BoolVal(ascii_ok), z3.Or([c == r for r in reps]))
+
+
+ID_REPS = {'start': [0xE9, 0x4E2D, 0x3B1, 0x10400], 'continue': [0xB7, 0x300, 0x200D], 'neither': [0x221E, 0xA0, 0x1F600, 0x3000]}
+
+
+@model(r'^is_valid_prop_ident$|utils::is_valid_prop_ident$')
+def m_is_valid_prop_ident(it, ctx, a, m, f):
+    s = S(a[0])
+    if not s.cs:
+        return False
+    return b_and(*[_id_char(ctx, c, i == 0) for i, c in enumerate(s.cs)])
+
+
+@model(r'^Ident::is_valid_(start|continue)$|^IdentName::is_valid_(start|continue)$')
+def m_is_valid_start(it, ctx, a, m, f):
+    return _id_char(ctx, deref(a[0]), (m.group(1) or m.group(2)) == 'start')
+
+
 # ---------------------------------------------------------------- diagnostics
 @model(r'^better_scoped_tls::ScopedKey::<Handler>::with::')
 def m_handler_with(it, ctx, a, m, f):
